@@ -16,9 +16,9 @@ verus! {
 //@include contracts/shared/utf8_specs.rs
 //@include contracts/shared/lift_structure_tag.rs
 
-pub struct RawControl { pub ctype: String, pub crit: bool, pub val: Option<Vec<u8>> }
-pub struct Exop { pub name: Option<String>, pub val: Option<Vec<u8>> }
-pub enum Types { Eoc = 0, Boolean = 1, Integer = 2, BitString = 3, OctetString = 4, Null = 5, Enumerated = 10, Sequence = 16, Set = 17 }
+//@item file=src/controls_impl.rs kind=struct name=RawControl
+//@item file=src/exop_impl.rs kind=struct name=Exop
+//@include contracts/shared/lift_types_enum.rs
 
 pub trait ASNTag { spec fn stree(&self) -> T; fn into_structure(self) -> (r: StructureTag) ensures st_tree(r) == self.stree(); }
 impl ASNTag for Tag {
@@ -57,7 +57,7 @@ pub broadcast axiom fn ax_str_bytes(s: &str) ensures #[trigger] s.spec_bytes() =
 
 // ======================================================================= controls (requests)
 //@const file=src/controls_impl/paged_results.rs name=PAGED_RESULTS_OID
-pub struct PagedResults { pub size: i32, pub cookie: Vec<u8> }
+//@item file=src/controls_impl/paged_results.rs kind=struct name=PagedResults
 // RFC 2696: realSearchControlValue ::= SEQUENCE { size INTEGER, cookie OCTET STRING }, OID 1.2.840.113556.1.4.319
 //@lift name=From<PagedResults>::from file=src/controls_impl/paged_results.rs impl="impl\s+From<PagedResults>\s+for\s+RawControl\s*\{" fn=from
 //@ sub "fn from(pr: PagedResults) -> RawControl" => "fn paged_results_into_raw(pr: PagedResults) -> RawControl"
@@ -134,8 +134,8 @@ pub trait IntoRaw { spec fn as_raw(&self) -> RawControl; fn into(self) -> (r: Ra
 // ---- SyncRequest (RFC 4533 2.2): SEQUENCE { mode ENUMERATED { refreshOnly (1), refreshAndPersist (3) },
 //      cookie syncCookie OPTIONAL, reloadHint BOOLEAN DEFAULT FALSE }, OID 1.3.6.1.4.1.4203.1.9.1.1
 //@const file=src/controls_impl/content_sync.rs name=SYNC_REQUEST_OID
-pub enum RefreshMode { RefreshOnly, RefreshAndPersist }
-pub struct SyncRequest { pub mode: RefreshMode, pub cookie: Option<Vec<u8>>, pub reload_hint: bool }
+//@item file=src/controls_impl/content_sync.rs kind=enum name=RefreshMode
+//@item file=src/controls_impl/content_sync.rs kind=struct name=SyncRequest
 pub open spec fn mode_num(m: RefreshMode) -> int { match m { RefreshMode::RefreshOnly => 1, RefreshMode::RefreshAndPersist => 3 } }
 //@lift name=From<RefreshMode>::from file=src/controls_impl/content_sync.rs impl="impl\s+From<RefreshMode>\s+for\s+i64\s*\{" fn=from
 //@ sub "fn from(mode: RefreshMode) -> i64" => "fn refresh_mode_num(mode: RefreshMode) -> i64"
@@ -375,8 +375,8 @@ pub proof fn lemma_paged_results_roundtrip(size: i32, cookie: Seq<u8>, st: Struc
 
 // ---- SyncState (RFC 4533 2.3): SEQUENCE { state ENUMERATED { present (0), add (1), modify (2), delete (3) },
 //      entryUUID OCTET STRING, cookie OCTET STRING OPTIONAL }
-pub struct SyncState { pub state: EntryState, pub entry_uuid: Vec<u8>, pub cookie: Option<Vec<u8>> }
-pub enum EntryState { Present, Add, Modify, Delete }
+//@item file=src/controls_impl/content_sync.rs kind=struct name=SyncState
+//@item file=src/controls_impl/content_sync.rs kind=enum name=EntryState
 pub open spec fn state_num(s: EntryState) -> int { match s { EntryState::Present => 0, EntryState::Add => 1, EntryState::Modify => 2, EntryState::Delete => 3 } }
 pub open spec fn wf_sync_state(t: StructureTag) -> bool {
     t.payload matches PL::C(k) && k@.len() >= 2 && k@[0].class == TagClass::Universal && k@[0].id == 10 && (k@[0].payload is P)
@@ -404,7 +404,7 @@ pub open spec fn wf_sync_state(t: StructureTag) -> bool {
 
 
 // ---- SyncDone (RFC 4533 2.4): SEQUENCE { cookie OCTET STRING OPTIONAL, refreshDeletes BOOLEAN DEFAULT FALSE }
-pub struct SyncDone { pub cookie: Option<Vec<u8>>, pub refresh_deletes: bool }
+//@item file=src/controls_impl/content_sync.rs kind=struct name=SyncDone
 pub open spec fn wf_sync_done_comp(c: StructureTag) -> bool {
     (c.id == 4 && (c.payload is P)) || (c.id == 1 && (c.payload matches PL::P(b) && b@.len() >= 1))
 }
